@@ -24,7 +24,9 @@ RULE = (
     "document, dirpath) and one-JSON-per-line mode (one file, filepath); "
     "half of the cases vary the layout: whole files in nested sub-directories "
     "(the directory is searched recursively), a single whole file through "
-    "`filepath`, several per-line files below one directory. "
+    "`filepath`, several per-line files below one directory. A fixed family "
+    "has runs of 63..1000 consecutive records without a span id with valid "
+    "records behind them (same group, next group, leading group). "
     "Oracle: vlib/refjq.py (pure Python reference of the HOWTO) - multiset "
     "of yielded OTelEvents == multiset of reference records that validate; "
     "both modes equal. Non-trivial: >=2 valid spans, and either >=1 invalid "
@@ -463,10 +465,56 @@ def plan(tier):
                          "priorities per field"}}
 
 
+def long_run_case(n, where):
+    """One document in which `n` consecutive records cannot form a valid span
+    (no span id) and valid records follow - in the same group, in the next
+    group, or both before and after."""
+    def span(i, ok):
+        d = {"name": f"op{i % 5}", "trace_id": f"t{i // 4}",
+             "parent_span_id": None if i % 4 == 0 else f"s{i - 1}",
+             "start_time_unix_nano": str(BIG + i),
+             "end_time_unix_nano": str(BIG + i + 7)}
+        if ok:
+            d["span_id"] = f"s{i}"
+        return d
+    bad = [span(i, False) for i in range(n)]
+    good = [span(1000 + i, True) for i in range(5)]
+    if where == "same_group":
+        groups = [{"spans": good[:2] + bad + good[2:]}]
+    elif where == "next_group":
+        groups = [{"spans": good[:2]}, {"spans": bad}, {"spans": good[2:]}]
+    else:
+        groups = [{"spans": bad}, {"spans": good}]
+    pre = "scope_spans.[].spans.[]."
+    nat = {"job_name": "name", "job_id": "trace_id", "event_type": "name",
+           "event_id": "span_id", "start_timestamp": "start_time_unix_nano",
+           "end_timestamp": "end_time_unix_nano", "application_name": "name",
+           "parent_event_id": "parent_span_id"}
+    mapping = {f: {"key_paths": [pre + v], "value_type": "string"}
+               for f, v in nat.items()}
+    return {"depth": 2, "docs": [{"scope_spans": groups}, {"scope_spans": [
+        {"spans": good[:1]}]}], "mapping": mapping, "long_run": n}
+
+
 def run_shard(ctx):
     def fn(case):
         nt, classes = classify(case)
         ctx.record(case, nt, classes)
         check_case(case)
+    # long runs of records that cannot form a span, valid ones behind them
+    runs = [(n, w) for n in (63, 64, 65, 100, 128, 255, 256, 1000)
+            for w in ("same_group", "next_group", "leading_group")]
+    for i, (n, w) in enumerate(runs):
+        if i % ctx.nshards != ctx.shard:
+            continue
+        case = long_run_case(n, w)
+        nt, classes = classify(case)
+        ctx.record({"long_run": n, "where": w}, True,
+                   classes + ["long_run_of_invalid_records"])
+        try:
+            check_case(case)
+        except Violation as v:
+            ctx.violation(case, f"[{n} invalid records, {w}] " + str(v))
+            return
     ctx.run_given(case_strategy(), fn, 300 if ctx.tier == "quick" else 5000,
                   shrinker=shrinker)
